@@ -50,7 +50,8 @@ def make_replayer():
         want = {'assembly': ['assembly'], 'partition': ['assembly'],
                 'solve-propagation': ['propagation']}.get(ob.kind, [])
         hits = {k: v for k, v in bat.result.items() if k in want}
-        info = {'battery': 'engine/replay/lp_battery.py on an overlay build '
+        info = {'rerun': {'battery': 'lp', 'oracles': want},
+                'battery': 'engine/replay/lp_battery.py on an overlay build '
                 'of the current tree (matrix form compared with the '
                 'constraint functions by evaluation; values / multipliers '
                 'after infeasible and unbounded solves)', 'oracles': want,
